@@ -102,7 +102,49 @@ theorem lookupA_filter {β : Type} (q : String → Bool) (x : String) (hx : q x 
 /-- a name that otto's extra properties do not use, on objects that are not String wrappers (whose index
     properties are virtual in otto and materialised in FnSpec) -/
 def Visible (σ : FnM.St) (x : String) : Prop :=
-  ∀ a o, σ.obj? a = some o → hidden o.val x = false ∧ ∀ s, o.val ≠ .string s
+  ∀ a o, σ.obj? a = some o → hidden o.val x = false ∧ (∀ s, o.val ≠ .string s) ∧ Fn.lookupA x o.accs = none
+
+/-! ### accessor properties are outside the abstraction: `absObj` has none, and the refinement lemmas are about names
+    that are not accessor properties anywhere (third part of `Visible`) -/
+
+theorem findAcc_abs (σ : FnM.St) (p : String) : ∀ (n a : Nat), Fn.findAcc (absSt σ) n a p = none := by
+  intro n
+  induction n with
+  | zero => intro a; rfl
+  | succ n ih =>
+    intro a
+    simp only [Fn.findAcc, absSt_obj]
+    cases σ.obj? a with
+    | none => rfl
+    | some o =>
+      simp only [Option.map_some]
+      cases (Fn.lookupA p (absObj o).props).isSome with
+      | true => rfl
+      | false =>
+        have : Fn.lookupA p (absObj o).accs = none := rfl
+        simp only [Bool.false_eq_true, if_false, this]
+        cases (absObj o).proto with
+        | none => rfl
+        | some q => exact ih q
+
+theorem getProp_abs (σ : FnM.St) (a : Nat) (p : String) :
+    Fn.getProp (absSt σ) (.ref a) p = Fn.getPropD (absSt σ) (.ref a) p := by
+  simp only [Fn.getProp, findAcc_abs]
+
+theorem putProp_abs (σ : FnM.St) (a : Nat) (p : String) (v : Fn.V) :
+    Fn.putProp (absSt σ) (.ref a) p v = Fn.putPropD (absSt σ) (.ref a) p v := by
+  simp only [Fn.putProp, findAcc_abs]
+
+theorem delProp_abs (σ : FnM.St) (a : Nat) (p : String) :
+    Fn.delProp (absSt σ) (.ref a) p = Fn.delPropD (absSt σ) (.ref a) p := by
+  simp only [Fn.delProp, absSt_obj]
+  cases σ.obj? a with
+  | none => rfl
+  | some o => rfl
+
+theorem hasProp_abs (σ : FnM.St) (n a : Nat) (p : String) :
+    Fn.hasProp (absSt σ) n a p = Fn.hasPropD (absSt σ) n a p := by
+  simp only [Fn.hasProp, findAcc_abs, Option.isSome_none, Bool.or_false]
 
 theorem absObj_lookup (o : FnM.Obj) (x : String) (hx : hidden o.val x = false) :
     Fn.lookupA x (absObj o).props = (Fn.lookupA x o.props).map (·.value) := by
@@ -198,6 +240,44 @@ theorem getOwnProperty_run (σ : FnM.St) (a : Nat) (name : String) :
     | native _ => rfl
     | error _ => rfl
 
+theorem findAccM_run (σ : FnM.St) (x : String) (hv : Visible σ x) :
+    ∀ (n a : Nat), FnM.findAcc n a x σ = .ok none σ := by
+  intro n
+  induction n with
+  | zero => intro a; rfl
+  | succ n ih =>
+    intro a
+    simp only [FnM.findAcc, bind_run, getOwnProperty_run]
+    cases ownP σ a x with
+    | some p => simp
+    | none =>
+      simp only [Option.isSome_none, Bool.false_eq_true, if_false, bind_run, getSt_run]
+      cases ho : σ.obj? a with
+      | none => rfl
+      | some o =>
+        have := (hv a o ho).2.2
+        simp only [this]
+        cases o.proto with
+        | none => rfl
+        | some q => exact ih q
+
+theorem objGetA_run (σ : FnM.St) (x : String) (hv : Visible σ x) (a : Nat) (prim : Option Fn.V) :
+    FnM.objGetA a x prim σ = FnM.objGet a x σ := by
+  simp only [FnM.objGetA, bind_run, chainFuel_run, findAccM_run σ x hv]
+
+theorem objPutA_run (σ : FnM.St) (x : String) (hv : Visible σ x) (a : Nat) (v : Fn.V) (prim : Option Fn.V) :
+    FnM.objPutA a x v prim σ = FnM.objPut a x v false σ := by
+  simp only [FnM.objPutA, bind_run, chainFuel_run, findAccM_run σ x hv]
+
+theorem objDeleteA_run (σ : FnM.St) (x : String) (hv : Visible σ x) (a : Nat) :
+    FnM.objDeleteA a x σ = FnM.objDelete a x false σ := by
+  simp only [FnM.objDeleteA, bind_run, getSt_run]
+  cases ho : σ.obj? a with
+  | none => rfl
+  | some o =>
+    have := (hv a o ho).2.2
+    simp only [this]
+
 def getPropertyP (σ : FnM.St) : Nat → Nat → String → Option FnM.Pty
   | 0, _, _ => none
   | n+1, a, name =>
@@ -269,15 +349,16 @@ theorem ownP_isSome (σ : FnM.St) (a : Nat) (o : FnM.Obj) (x : String) (ho : σ.
 theorem hasProperty_spec (σ : FnM.St) (x : String) (hv : Visible σ x) :
     ∀ (n a : Nat), (getPropertyP σ n a x).isSome = Fn.hasProp (absSt σ) n a x := by
   intro n
+  simp only [hasProp_abs]
   induction n with
   | zero => intro a; rfl
   | succ n ih =>
     intro a
-    simp only [getPropertyP, Fn.hasProp, absSt_obj]
+    simp only [getPropertyP, Fn.hasPropD, absSt_obj]
     cases ho : σ.obj? a with
     | none => simp [ownP, ho]
     | some o =>
-      have ⟨hh, hs⟩ := hv a o ho
+      have ⟨hh, hs, hac⟩ := hv a o ho
       have h1 := ownP_isSome σ a o x ho hs
       simp only [Option.map_some, absObj_lookup o x hh]
       cases hown : ownP σ a x with
@@ -429,7 +510,7 @@ theorem getChain_spec (σ : FnM.St) (x : String) (hv : Visible σ x) (hnp : NoAr
     cases ho : σ.obj? a with
     | none => simp [ownP, ho]
     | some o =>
-      have ⟨hh, hs⟩ := hv a o ho
+      have ⟨hh, hs, hac⟩ := hv a o ho
       rw [ownP_of_unmapped σ a o x ho hs (hm o ho)]
       simp only [Option.map_some, absObj_lookup o x hh]
       cases hl : Fn.lookupA x o.props with
@@ -489,7 +570,8 @@ def ErrWF (σ : FnM.St) : Prop :=
 theorem getProp_spec (σ : FnM.St) (a : Nat) (x : String) (hv : Visible σ x) (hnp : NoArgsProto σ) (haw : ArgsWF σ)
     (hew : ErrWF σ) :
     Fn.getProp (absSt σ) (.ref a) x = .ok (getP σ a x) (absSt σ) := by
-  unfold Fn.getProp getP
+  rw [getProp_abs]
+  unfold Fn.getPropD getP
   simp only [absSt_obj, absSt_heap_length, absSt_envs_length]
   cases ho : σ.obj? a with
   | none => simp [getPropertyP, ownP, ho]
@@ -593,7 +675,7 @@ theorem getValue_ident_spec (σ : FnM.St) (x : String) (hv : Visible σ x) (h0 :
   · subst hj
     have h0' : σ.stash? 0 = some (.obj none FnM.gObj) := h0
     rw [newReference_obj σ 0 x none FnM.gObj h0']
-    simp only [FnM.refGetValue, objGet_run, absR, if_true]
+    simp only [FnM.refGetValue, objGetA_run σ x hv, objGet_run, absR, if_true]
     exact (getProp_spec σ FnM.gObj x hv hnp haw hew).symm
   · simp only [hj, if_false, absSt_env]
     cases hs : σ.stash? j with
@@ -602,7 +684,7 @@ theorem getValue_ident_spec (σ : FnM.St) (x : String) (hv : Visible σ x) (h0 :
       cases st with
       | obj outer o =>
         rw [newReference_obj σ j x outer o hs]
-        simp only [FnM.refGetValue, objGet_run, absR, Option.map_some, absStash]
+        simp only [FnM.refGetValue, objGetA_run σ x hv, objGet_run, absR, Option.map_some, absStash]
         exact (getProp_spec σ o x hv hnp haw hew).symm
       | dcl outer ps =>
         have hd : FnM.dclProps σ j = ps := by simp [FnM.dclProps, hs]
@@ -784,7 +866,7 @@ theorem canPut_chain (σ : FnM.St) (x : String) (hv : Visible σ x) (hw : Writab
     cases ho : σ.obj? a with
     | none => simp [ownP, ho]
     | some o =>
-      have ⟨hh, hs⟩ := hv a o ho
+      have ⟨hh, hs, hac⟩ := hv a o ho
       have h1 := ownP_w σ a o x ho hs
       simp only [Option.map_some, absObj_lookup o x hh]
       cases hown : ownP σ a x with
@@ -906,14 +988,15 @@ theorem putProp_spec (σ : FnM.St) (a : Nat) (x : String) (v : Fn.V) (hv : Visib
     (hd : ProtoDesc σ) (hna : ∀ o, σ.obj? a = some o → ∀ ipn st, o.val ≠ .arguments ipn st) :
     absR (FnM.objPut a x v false σ) = Fn.putProp (absSt σ) (.ref a) x v := by
   have hcp := canPutP_spec σ a x hv hw hd
-  unfold FnM.objPut Fn.putProp
+  rw [putProp_abs]
+  unfold FnM.objPut Fn.putPropD
   simp only [bind_run, canPutDetails_run, absSt_obj, absSt_heap_length]
   cases ho : σ.obj? a with
   | none =>
     have hown : ownP σ a x = none := by simp [ownP, ho]
     simp [canPutP, hown, ho, FnM.defineProperty, FnM.defineOwnProperty, absR]
   | some o =>
-    have ⟨hh, hs⟩ := hv a o ho
+    have ⟨hh, hs, hac⟩ := hv a o ho
     have hm : mapGetP σ o x = none := mapGetP_none_of_not_args σ o x (hna o ho)
     have hown : ownP σ a x = Fn.lookupA x o.props := ownP_of_unmapped σ a o x ho hs hm
     have hkind : ∀ m e, (absObj o).kind ≠ .args m e := by
@@ -1108,7 +1191,7 @@ theorem putValue_obj_spec (σ : FnM.St) (j : Nat) (outer : Option Nat) (o : Nat)
       simp; rfl
     · simp [hj, absSt_env, hs, absStash]
   rw [hspec, ← hput]
-  simp only [FnM.rtPutValue, FnM.refPutValue, bind_run]
+  simp only [FnM.rtPutValue, FnM.refPutValue, bind_run, objPutA_run σ x hv]
   cases FnM.objPut o x v false σ with
   | ok u σ' => cases u; simp
   | throw t σ' => rfl
@@ -1311,12 +1394,13 @@ theorem delProp_spec (σ : FnM.St) (a : Nat) (x : String) (hv : Visible σ x) (h
     (hna : ∀ o, σ.obj? a = some o → ∀ ipn st, o.val ≠ .arguments ipn st)
     (hc : ∀ o p, σ.obj? a = some o → Fn.lookupA x o.props = some p → p.c = !Fn.fixedProp (absKind o.val) x) :
     absR (boolR (FnM.objDelete a x false σ)) = Fn.delProp (absSt σ) (.ref a) x := by
-  unfold FnM.objDelete Fn.delProp
+  rw [delProp_abs]
+  unfold FnM.objDelete Fn.delPropD
   simp only [bind_run, getOwnProperty_run, absSt_obj]
   cases ho : σ.obj? a with
   | none => simp [ownP, ho, absR, boolR]
   | some o =>
-    have ⟨hh, hs⟩ := hv a o ho
+    have ⟨hh, hs, hac⟩ := hv a o ho
     have hm : mapGetP σ o x = none := mapGetP_none_of_not_args σ o x (hna o ho)
     have hown : ownP σ a x = Fn.lookupA x o.props := ownP_of_unmapped σ a o x ho hs hm
     have hkind : ∀ m e, (absObj o).kind ≠ .args m e := by
@@ -1339,7 +1423,7 @@ theorem delProp_spec (σ : FnM.St) (a : Nat) (x : String) (hv : Visible σ x) (h
         obtain ⟨e, he, hee⟩ := List.mem_map.1 hmem
         exact h1 (List.mem_map.2 ⟨e, (List.mem_filter.1 he).1, hee⟩)
       rw [filter_ne_notmem x _ hne]
-      have : ({ props := (absObj o).props, proto := (absObj o).proto, kind := (absObj o).kind, dontEnum := (absObj o).dontEnum, readOnly := List.filter (fun x_1 => x_1 != x) (absObj o).readOnly, dontDelete := (absObj o).dontDelete } : Fn.Obj) = absObj o := rfl
+      have : ({ props := (absObj o).props, proto := (absObj o).proto, kind := (absObj o).kind, dontEnum := (absObj o).dontEnum, accs := (absObj o).accs, readOnly := List.filter (fun x_1 => x_1 != x) (absObj o).readOnly, dontDelete := (absObj o).dontDelete } : Fn.Obj) = absObj o := rfl
       rw [this, absSt_setObj_self σ a o ho]
     | some p =>
       have hpc := hc o p ho hl
@@ -1398,10 +1482,10 @@ theorem putProp_mapped_spec (σ : FnM.St) (a : Nat) (x : String) (v : Fn.V) (o :
     (hbind : Fn.lookupA pn (FnM.dclProps σ st) = some p) (hmut : p.mutable_ = true) (hn : StashNodup σ)
     (hown : Fn.lookupA x o.props = some p0) (hw : p0.w = true) :
     absR (FnM.objPut a x v false σ) = Fn.putProp (absSt σ) (.ref a) x v := by
-  obtain ⟨cls, proto, props, val⟩ := o
+  obtain ⟨cls, proto, props, val, accs⟩ := o
   simp only at hval hown
   subst hval
-  generalize hoo : ({ cls := cls, proto := proto, props := props, val := FnM.OVal.arguments ipn st } : FnM.Obj) = o at ho
+  generalize hoo : ({ cls := cls, proto := proto, props := props, val := FnM.OVal.arguments ipn st, accs := accs } : FnM.Obj) = o at ho
   have hov : o.val = .arguments ipn st := by rw [← hoo]
   have hop : o.props = props := by rw [← hoo]
   have hh : hidden o.val x = false := by simp [hov, hidden]
@@ -1437,7 +1521,8 @@ theorem putProp_mapped_spec (σ : FnM.St) (a : Nat) (x : String) (v : Fn.V) (o :
     have hnw : ((!p0.w) = true) = False := by simp [hw]
     simp only [hnw, if_false, pure_run]
     rfl
-  unfold FnM.objPut Fn.putProp
+  rw [putProp_abs]
+  unfold FnM.objPut Fn.putPropD
   simp only [bind_run, canPutDetails_run, hcpP, absSt_obj, ho, Option.map_some, absSt_heap_length, hcan, Bool.not_true,
     Bool.false_eq_true, if_false, hma, absObj_lookup o x hh, hown']
   have hd2 : ({ value := v, w := p0.w, e := p0.e, c := p0.c } : FnM.Pty) = { p0 with value := v } := rfl
@@ -1515,12 +1600,13 @@ theorem delete_spec (σ : FnM.St) (a : Nat) (x : String) (hv : Visible σ x) (hn
     (hc : ∀ o p, σ.obj? a = some o → Fn.lookupA x o.props = some p → p.c = !Fn.fixedProp (absKind o.val) x)
     (hmo : ∀ o, σ.obj? a = some o → isMapped o.val x = true → (Fn.lookupA x o.props).isSome = true) :
     absR (boolR (FnM.objDelete a x false σ)) = Fn.delProp (absSt σ) (.ref a) x := by
-  unfold FnM.objDelete Fn.delProp
+  rw [delProp_abs]
+  unfold FnM.objDelete Fn.delPropD
   simp only [bind_run, getOwnProperty_run, absSt_obj]
   cases ho : σ.obj? a with
   | none => simp [ownP, ho, absR, boolR]
   | some o =>
-    have ⟨hh, hs⟩ := hv a o ho
+    have ⟨hh, hs, hac⟩ := hv a o ho
     have h1 := ownP_isSome σ a o x ho hs
     have h2 := ownP_c σ a o x ho hs
     have hkk : (absObj o).kind = absKind o.val := rfl
@@ -1549,7 +1635,7 @@ theorem delete_spec (σ : FnM.St) (a : Nat) (x : String) (hv : Visible σ x) (hn
         obtain ⟨e, he, hee⟩ := List.mem_map.1 hmem
         exact h1 (List.mem_map.2 ⟨e, (List.mem_filter.1 he).1, hee⟩)
       rw [filter_ne_notmem x _ hne]
-      have : ({ props := (absObj o).props, proto := (absObj o).proto, kind := absKind o.val, dontEnum := (absObj o).dontEnum, readOnly := List.filter (fun x_1 => x_1 != x) (absObj o).readOnly, dontDelete := (absObj o).dontDelete } : Fn.Obj) = absObj o := rfl
+      have : ({ props := (absObj o).props, proto := (absObj o).proto, kind := absKind o.val, dontEnum := (absObj o).dontEnum, accs := (absObj o).accs, readOnly := List.filter (fun x_1 => x_1 != x) (absObj o).readOnly, dontDelete := (absObj o).dontDelete } : Fn.Obj) = absObj o := rfl
       rw [this, absSt_setObj_self σ a o ho]
     | some p =>
       have hpc := hc o p ho hl
@@ -2837,7 +2923,7 @@ theorem ro_var (n : Nat) (x : String) (sc : FnM.Scope) (rest : List FnM.Scope) (
         | some st =>
           cases st with
           | obj outer o =>
-            simp only [FnM.newReference, hs, FnM.refGetValue, objGet_run] at hm
+            simp only [FnM.newReference, hs, FnM.refGetValue, objGetA_run σ x hv, objGet_run] at hm
             cases hm; rfl
           | dcl outer ps =>
             simp only [FnM.newReference, hs, FnM.refGetValue, FnM.getBinding, bind_run, getSt_run, dclGetBinding_run] at hm
@@ -2855,7 +2941,7 @@ theorem ro_var (n : Nat) (x : String) (sc : FnM.Scope) (rest : List FnM.Scope) (
       | none => simp [FnM.newReference, hs, FnM.refGetValue, FnM.getBinding] at hm
       | some st =>
         cases st with
-        | obj outer o => simp [FnM.newReference, hs, FnM.refGetValue, objGet_run] at hm
+        | obj outer o => simp [FnM.newReference, hs, FnM.refGetValue, objGetA_run σ x hv, objGet_run] at hm
         | dcl outer ps => simp [FnM.newReference, hs, FnM.refGetValue, FnM.getBinding, dclGetBinding_run] at hm
         | fn outer ps ar => simp [FnM.newReference, hs, FnM.refGetValue, FnM.getBinding, dclGetBinding_run] at hm
 
@@ -3229,6 +3315,12 @@ theorem ro_isVal (n : Nat) (e : Fn.FE) (hro : ro e = true) (hnv : ∀ x, e ≠ .
                 | fuel => simp
                 | throw t s => simp
                 | ok lv s2 => simp only [getSt_run, pure_run, FnM.R.ok.injEq]; intro h; exact ⟨_, h.1.symm⟩
+            | pprop b nm pv =>
+              simp only [bind_run]
+              cases FnM.resolve (.ref (.pprop b nm pv)) s1 with
+              | fuel => simp
+              | throw t s => simp
+              | ok lv s2 => simp only [getSt_run, pure_run, FnM.R.ok.injEq]; intro h; exact ⟨_, h.1.symm⟩
       | log a =>
         simp only [FnM.evalE, bind_run] at hr
         revert hr
@@ -3295,8 +3387,8 @@ theorem getValue_resolved (σ : FnM.St) (x : String) (xs : List String) (hx : x 
   | some st =>
     cases st with
     | obj outer o =>
-      refine ⟨getP σ o x, by simp [FnM.newReference, hs, FnM.refGetValue, objGet_run], ?_⟩
-      rw [← hg]; simp [FnM.newReference, hs, FnM.refGetValue, objGet_run, absR]
+      refine ⟨getP σ o x, by simp [FnM.newReference, hs, FnM.refGetValue, objGetA_run σ x (hI.vis x hx), objGet_run], ?_⟩
+      rw [← hg]; simp [FnM.newReference, hs, FnM.refGetValue, objGetA_run σ x (hI.vis x hx), objGet_run, absR]
     | dcl outer ps =>
       refine ⟨dclGetP σ j x, by simp [FnM.newReference, hs, FnM.refGetValue, FnM.getBinding, dclGetBinding_run], ?_⟩
       rw [← hg]; simp [FnM.newReference, hs, FnM.refGetValue, FnM.getBinding, dclGetBinding_run, absR]
